@@ -84,19 +84,20 @@ def spec_costs(inputs, output, sd, ssa, ops):
     removed = {ix for ix, _v in ops}
     nslices = _prod(sd[ix] for ix, v in ops if v is None)
     steps = spec_nodes(n, ssa)
-    size, flops = {}, {}
+    size, flops, legs = {}, {}, {}
     for i in range(n):
         leaf = frozenset([i])
-        size[leaf] = _prod(sd[ix] for ix in spec_legs(inputs, output, leaf, removed))
+        legs[leaf] = spec_legs(inputs, output, leaf, removed)
+        size[leaf] = _prod(sd[ix] for ix in legs[leaf])
         flops[leaf] = 0
     for p, l, r in steps:
-        ll = spec_legs(inputs, output, l, removed)
-        rl = spec_legs(inputs, output, r, removed)
-        flops[p] = _prod(sd[ix] for ix in ll | rl)
-        size[p] = _prod(sd[ix] for ix in spec_legs(inputs, output, p, removed))
+        legs[p] = spec_legs(inputs, output, p, removed)
+        flops[p] = _prod(sd[ix] for ix in legs[l] | legs[r])
+        size[p] = _prod(sd[ix] for ix in legs[p])
     return {
         "nslices": nslices,
         "steps": steps,
+        "legs": legs,
         "size": size,
         "flops": flops,
         "total_flops": nslices * sum(flops[p] for p, _l, _r in steps),
@@ -217,7 +218,6 @@ def run_case(inputs, output, sd, ssa, ops, tracked, orders, rec_order=None, rec_
 
     n = len(inputs)
     spec = spec_costs(inputs, output, sd, ssa, ops)
-    removed = {ix for ix, _v in ops}
     kw = {"track_flops": True, "track_write": True, "track_size": True} if tracked else {}
     with warnings.catch_warnings():
         warnings.simplefilter("ignore")
@@ -314,7 +314,7 @@ def run_case(inputs, output, sd, ssa, ops, tracked, orders, rec_order=None, rec_
             for nm, nd, shp in (("result", p, shp_p), ("left operand", l, shp_l), ("right operand", r, shp_r)):
                 if _prod(shp) != tree.get_size(nd):
                     return "produced array size != get_size(node)", f"step {k} node {sorted(nd)} {nm}: shape {shp}, tree.get_size={tree.get_size(nd)}"
-                wdims = sorted(sd[ix] for ix in spec_legs(inputs, output, nd, removed))
+                wdims = sorted(sd[ix] for ix in spec["legs"][nd])
                 if sorted(shp) != wdims:
                     return "produced array dims != surviving indices", f"step {k} node {sorted(nd)} {nm}: shape {shp}, surviving dimensions {wdims}"
             fire("recorded shapes == get_size(node)")
@@ -444,15 +444,15 @@ def _plans(tier, rng):
         out.append(("Net(2,3,3) x tree x ALL subsets(<=3) x slice/project x orders", list(scope.networks(2, 3, 3)), True,
                     {"trees": "all", "ops": "all", "rec_every": 2}, "all 3108 networks; distinct prime sizes; recording run on every 2nd case"))
         out.append(("Net(3,3,2) x all trees x ALL subsets(<=3) x slice/project x orders", list(scope.networks(3, 3, 2)), True,
-                    {"trees": "all", "ops": "all", "rec_every": 3}, "all 4106 networks; all 3 trees; distinct prime sizes; recording run on every 3rd case"))
-        out.append(("Net(3,3,3) sample x all trees x sampled subsets", scope.sample_networks(3, 3, 3, 2000, rng), False,
-                    {"trees": "all", "ops": 5}, "seeded sample of 2000 of 152423 networks"))
-        out.append(("Net(4,4,3) sample x all trees x sampled subsets", scope.sample_networks(4, 4, 3, 500, rng), False,
-                    {"trees": "all", "ops": 3}, "seeded sample of 500 networks; all 15 trees"))
-        out.append(("Net(5,5,3) sample x all trees x sampled subsets", scope.sample_networks(5, 5, 3, 60, rng), False,
-                    {"trees": "all", "ops": 2, "rec_max_slices": 12}, "seeded sample of 60 networks; all 105 trees"))
-        out.append(("Net(6,6,3) sample x sampled trees x sampled subsets", scope.sample_networks(6, 6, 3, 60, rng), False,
-                    {"trees": 30, "ops": 2, "rec_max_slices": 12}, "seeded sample of 60 networks; 30 random of 945 trees"))
+                    {"trees": "all", "ops": "all", "rec_every": 4}, "all 4106 networks; all 3 trees; distinct prime sizes; recording run on every 4th case"))
+        out.append(("Net(3,3,3) sample x all trees x sampled subsets", scope.sample_networks(3, 3, 3, 1500, rng), False,
+                    {"trees": "all", "ops": 5}, "seeded sample of 1500 of 152423 networks"))
+        out.append(("Net(4,4,3) sample x all trees x sampled subsets", scope.sample_networks(4, 4, 3, 400, rng), False,
+                    {"trees": "all", "ops": 3}, "seeded sample of 400 networks; all 15 trees"))
+        out.append(("Net(5,5,3) sample x all trees x sampled subsets", scope.sample_networks(5, 5, 3, 40, rng), False,
+                    {"trees": "all", "ops": 2, "rec_max_slices": 12}, "seeded sample of 40 networks; all 105 trees"))
+        out.append(("Net(6,6,3) sample x sampled trees x sampled subsets", scope.sample_networks(6, 6, 3, 40, rng), False,
+                    {"trees": 30, "ops": 2, "rec_max_slices": 12}, "seeded sample of 40 networks; 30 random of 945 trees"))
     else:
         out.append(("Net(2,3,3) x tree x ALL subsets(<=3) x slice/project x orders", list(scope.networks(2, 3, 3)), True,
                     {"trees": "all", "ops": "all"}, "all 3108 networks; recording run on every case"))
@@ -478,7 +478,7 @@ def run_bounded(rep: Report, tier: str) -> None:
         rep.crash("C03 independent evaluator disagrees with hand-computed examples: " + "; ".join(errs))
         return
     rng = random.Random(f"{seed()}|C03|plans")
-    _DEADLINE = deadline(tier, 70, 25 * 60)
+    _DEADLINE = deadline(tier, 150, 25 * 60)  # safety net only: the quick workload is sized for ~20 s on 16 idle cores
     rep.rule = (
         "case = (network with >= 2 tensors, distinct prime dimensions, binary tree, set of <= 3 removed indices each sliced "
         "or projected (applied in a seeded order), tracked-from-construction flag); one evaluation = all cost comparisons of "
@@ -494,9 +494,12 @@ def run_bounded(rep: Report, tier: str) -> None:
         meta[name] = {"nets": len(nets), "exh": exh, "bound": bound, "done": 0, "cases": 0, "rec": 0, "skipped": 0}
         for idx, (i, o) in enumerate(nets):
             items.append((name, idx, i, o, plan))
+    if tier == "quick":
+        items.reverse()  # large-network scopes first, the many cheap ones fill the tail (load balance);
+        # in thorough the complete small scopes stay first so that a time limit can only cut the big ones
     viols = []
     nsamples = 0
-    for status, r in pmap(_work, items, chunk=8):
+    for status, r in pmap(_work, items, chunk=4):
         if status == "crash":
             rep.crash("C03 worker: " + r[:1500])
             continue
